@@ -16,3 +16,24 @@ const VerifMaxFileSize = int64(maxFileSize)
 func VerifWriteLateChunk(path string, chunkSize uint32, idx uint32, data []byte) error {
 	return writeLateChunk(&recvFileStateMux{filePath: path, chunkSize: chunkSize}, idx, data)
 }
+
+// VerifReloadSidecar creates resume metadata for (id, size, chunkA) with every chunk marked,
+// stores it, and loads it again the way the receiver does for a transfer that uses chunkB. It
+// returns the chunk count and chunk size of what the receiver would work with.
+func VerifReloadSidecar(path, id string, size int64, chunkA, chunkB uint32) (uint32, uint32, int, error) {
+	sc, err := CreateSidecar(path, id, size, chunkA)
+	if err != nil {
+		return 0, 0, 0, err
+	}
+	for i := uint32(0); i < sc.TotalChunks; i++ {
+		sc.MarkComplete(i)
+	}
+	if err := sc.Flush(); err != nil {
+		return 0, 0, 0, err
+	}
+	got, err := LoadOrCreateSidecarWithFallback(path, "", id, size, chunkB)
+	if err != nil {
+		return 0, 0, 0, err
+	}
+	return got.TotalChunks, got.ChunkSize, got.bitmap.CountSet(), nil
+}
